@@ -159,29 +159,27 @@ theorem gs_withM {s t : Sess} (h : GS pre s t) {a b : Mach} (hab : normA a = nor
 
 theorem popData_limit (a : Mach) : a.popData.2.insnLimit = a.insnLimit := (popData_keeps a).2
 
+theorem gs_dropTop {s t : Sess} (h : GS pre s t) (rest : List Cell) :
+    GS pre { s with m := { s.m with ds := rest } } { t with m := { t.m with ds := rest } } := by
+  gs_cases h s t
+  simp [GS, normA, normB]
+
 theorem gs_emitResults : ∀ (f : Nat) (s t : Sess), GS pre s t → GR pre (Sess.emitResults f s) (Sess.emitResults f t)
   | 0, s, t, h => h
   | f + 1, s, t, h => by
     obtain ⟨e1, e2, _⟩ := gs_same h
     simp only [Sess.emitResults]
-    rw [e1, e2]
-    split
-    · have hp := Ghost.popData_sim s.m t.m h.1
-      have hl := popData_limit s.m
-      revert hp hl
-      generalize s.m.popData = ra
-      generalize t.m.popData = rb
-      obtain ⟨oa, ma⟩ := ra
-      obtain ⟨ob, mb⟩ := rb
-      rintro ⟨g1, g2⟩ hl
-      simp only at g1 g2 hl
-      subst g1
-      have hl' : ma.insnLimit = none := by rw [hl]; exact h.2.2.2.2.2.2
-      cases oa with
-      | ok v => exact gs_emitResults f _ _ (gs_emit _ _ (gs_withM h g2 hl') _)
-      | err e => exact ⟨rfl, gs_withM h g2 hl'⟩
-      | panic p => exact ⟨rfl, gs_withM h g2 hl'⟩
-    · exact h
+    have hc : (s.m.ds.length > max s.m.ctx.dsOpen s.m.ctx.dsLen) ↔ (t.m.ds.length > max t.m.ctx.dsOpen t.m.ctx.dsLen) := by
+      rw [e1, e2]
+    by_cases hgt : s.m.ds.length > max s.m.ctx.dsOpen s.m.ctx.dsLen
+    · rw [if_pos hgt, if_pos (hc.mp hgt)]
+      cases hd : t.m.ds with
+      | nil => rw [e2, hd]; exact h
+      | cons v rest =>
+        rw [e2, hd]
+        exact gs_emitResults f _ _ (gs_emit _ _ (gs_dropTop h rest) _)
+    · rw [if_neg hgt, if_neg (fun x => hgt (hc.mpr x))]
+      exact h
 
 theorem gs_setNested {s t : Sess} (h : GS pre s t) (n : List Ctx) : GS pre { s with nested := n } { t with nested := n } := by
   obtain ⟨a1, a2, a3, _, a5, a6, a7⟩ := h
@@ -401,6 +399,20 @@ theorem gs_dropUndo {s t : Sess} (h : GS pre s t) (n : Nat) :
   obtain ⟨a1, a2, a3, a4, a5, a6, a7⟩ := h
   exact ⟨a1, a2, a3, a4, by simp only; rw [a5], a6, a7⟩
 
+/-- `forget_build_log` on both sides -/
+theorem gs_forget {ms mt s t : Sess} (hmk : GSt pre ms mt) (h : GS pre s t) (n : Nat) :
+    GS pre { s with constUndo := s.constUndo.drop (s.constUndo.length - n), m := forgetBuildLog ms.m s.m }
+           { t with constUndo := t.constUndo.drop (t.constUndo.length - n), m := forgetBuildLog mt.m t.m } := by
+  unfold GSt at hmk
+  obtain ⟨hm', h2', h3', h4', h5', _, _⟩ := hmk
+  obtain ⟨msm, _, _, _, _, _⟩ := ms
+  obtain ⟨mtm, _, _, _, _, _⟩ := mt
+  simp only at hm' h2' h3' h4' h5'
+  subst h2' h3' h4' h5'
+  m_cases hm' msm mtm
+  gs_cases h s t
+  simp [GS, forgetBuildLog, normA, normB]
+
 /-- **one source, two related sessions**: the same answer, related sessions afterwards -/
 theorem gs_buildSource (fuel : Nat) (mode : Mode) (hmode : mode ≠ .metaEval) (toks : List Tok) (s t : Sess)
     (h : GSt pre s t) : BR pre (s.buildSource fuel mode toks) (t.buildSource fuel mode toks) := by
@@ -429,7 +441,7 @@ theorem gs_buildSource (fuel : Nat) (mode : Mode) (hmode : mode ≠ .metaEval) (
   cases ra <;> cases rb <;> first | exact hb.elim | skip
   · rename_i s2 t2
     simp only
-    have h2 := gs_contextClose _ _ (gs_dropUndo hb s.constUndo.length) fuel
+    have h2 := gs_contextClose _ _ (gs_forget h hb s.constUndo.length) fuel
     rw [← hcu]
     revert h2
     generalize Sess.contextClose fuel _ = ra
